@@ -55,7 +55,11 @@ func (m *Model) computeStoreSets() {
 	for changed := true; changed; {
 		changed = false
 		for _, fn := range m.Funcs {
+			live := m.Live(fn)
 			for _, b := range fn.Blocks {
+				if !live[b.Index] {
+					continue
+				}
 				for _, in := range b.Instrs {
 					switch in := in.(type) {
 					case *ssa.Store:
@@ -239,4 +243,73 @@ func (m *Model) IsGuard0Store(st *ssa.Store) bool {
 		return hasLoad
 	}
 	return false
+}
+
+// LoadSet returns the fields of *Decimal parameter k that fn may read (directly or through
+// statically resolved callees in the analysed packages), over live blocks only.
+func (m *Model) LoadSet(fn *ssa.Function, k int) []int {
+	if m.loadSets == nil {
+		m.loadSets = map[*ssa.Function]map[int]map[int]bool{}
+		add := func(fn *ssa.Function, k, f int) bool {
+			if m.loadSets[fn] == nil {
+				m.loadSets[fn] = map[int]map[int]bool{}
+			}
+			if m.loadSets[fn][k] == nil {
+				m.loadSets[fn][k] = map[int]bool{}
+			}
+			if m.loadSets[fn][k][f] {
+				return false
+			}
+			m.loadSets[fn][k][f] = true
+			return true
+		}
+		for changed := true; changed; {
+			changed = false
+			for _, fn := range m.Funcs {
+				live := m.Live(fn)
+				for _, b := range fn.Blocks {
+					if !live[b.Index] {
+						continue
+					}
+					for _, in := range b.Instrs {
+						switch in := in.(type) {
+						case *ssa.UnOp:
+							if fa, ok := m.LoadOfDecField(in); ok {
+								r := m.RefOf(fa.X)
+								for k := range fn.Params {
+									if r.MayBeParam(k) && add(fn, k, fa.Field) {
+										changed = true
+									}
+								}
+							}
+						case ssa.CallInstruction:
+							c := in.Common()
+							cal := c.StaticCallee()
+							if cal == nil || len(cal.Blocks) == 0 {
+								continue
+							}
+							for ai, a := range c.Args {
+								if !m.IsDecPtr(a.Type()) {
+									continue
+								}
+								r := m.RefOf(a)
+								for f := range m.loadSets[cal][ai] {
+									for k := range fn.Params {
+										if r.MayBeParam(k) && add(fn, k, f) {
+											changed = true
+										}
+									}
+								}
+							}
+						}
+					}
+				}
+			}
+		}
+	}
+	var out []int
+	for f := range m.loadSets[fn][k] {
+		out = append(out, f)
+	}
+	return out
 }
